@@ -13,16 +13,21 @@
 (***************************************************************************)
 EXTENDS D42Registry, D42TraceBase
 
+CONSTANT Scope        \* the property whose check runs the machine: "C16" (dispatch) | "C03" (rendering)
+
 Final(e) == Run(InitReg, e.hist)
 
 Verdict(e) ==
+  IF Scope = "C03"
+  THEN IF e.render # "default" /\ "format_type_error" \notin Final(e).own["Formatter"]
+       THEN "FAIL:message_rendering_changed_without_a_public_format_method_being_replaced:"
+       ELSE "OK"
+  ELSE
   IF \E v \in LibVisitors : e.dispatch["CFull"][v] # "hook:" \o OpOf(v)
   THEN "FAIL:complete_custom_type_not_dispatched_to_its_hooks:"
   ELSE IF \E c \in BuiltinCls, v \in LibVisitors :
             e.dispatch[c][v] # "builtin" /\ ~Replaced(Final(e), c, v)
   THEN "FAIL:builtin_type_lost_its_visit_method:"
-  ELSE IF e.render # "default" /\ "format_type_error" \notin Final(e).own["Formatter"]
-  THEN "FAIL:message_rendering_changed_without_a_public_format_method_being_replaced:"
   ELSE "OK"
 
 Drift(e) ==
